@@ -284,8 +284,10 @@ def run_check(chk, tier, seed, replay=None):
         "property_id": pid, "tier": tier, "seed": int(seed), "level": chk.get("level", "exploration"),
         "coverage": cov, "assumptions": chk["assumptions"], "wall_s": round(time.time() - t0, 2), "violations": len(confirmed),
     }
-    os.makedirs(os.path.join(ROOT, "evidence"), exist_ok=True)
-    epath = os.path.join(ROOT, "evidence", f"{pid}.json")
+    # experiments against seeded changes set VERIF_EVIDENCE_DIR so that they do not overwrite the evidence of the unchanged tree
+    edir = os.environ.get("VERIF_EVIDENCE_DIR", os.path.join(ROOT, "evidence"))
+    os.makedirs(edir, exist_ok=True)
+    epath = os.path.join(edir, f"{pid}.json")
     with open(epath + ".tmp", "w") as f:
         json.dump(ev, f, indent=1)
     os.replace(epath + ".tmp", epath)
